@@ -136,7 +136,9 @@ func init() {
 							l1 = append(l1, tarEntry{Name: name, Type: tar.TypeReg, Mode: 0644, Content: []byte(fmt.Sprintf("F%d", j+1))})
 							l2 = append(l2, tarEntry{Name: fmt.Sprintf("%s/.wh.n%d", dir, j+1), Type: tar.TypeReg, Mode: 0644})
 						case "out":
-							l1 = append(l1, tarEntry{Name: name, Type: tar.TypeSymlink, Mode: 0777, Linkname: "../../outside"})
+							// a target that leaves the image root, spelled plainly or going down / staying put first
+							out := []string{"../../outside", "sub/../../../outside", "./../../outside"}[(gi+j)%3]
+							l1 = append(l1, tarEntry{Name: name, Type: tar.TypeSymlink, Mode: 0777, Linkname: out})
 						case "rel":
 							l1 = append(l1, tarEntry{Name: name, Type: tar.TypeSymlink, Mode: 0777, Linkname: fmt.Sprintf("n%d", to)})
 						case "abs":
@@ -151,6 +153,8 @@ func init() {
 					}
 				}
 				l2 = append(l2, tarEntry{Name: "marker", Type: tar.TypeReg, Mode: 0644, Content: []byte("x")})
+				// where an escaping target would land if its extra ".." were clamped at the root: following such a link must not find this
+				l1 = append(l1, tarEntry{Name: "outside", Type: tar.TypeReg, Mode: 0644, Content: []byte("OUT")})
 				t1, err1 := writeTar(l1)
 				t2, err2 := writeTar(l2)
 				v1img, err3 := buildImage([]layerSpec{{Tar: t1, Cmd: "L1"}, {Tar: t2, Cmd: "L2"}}, true)
